@@ -1,6 +1,6 @@
 (* Extraction of the executable model to OCaml for the correspondence driver.
    ExtrOcamlBasic only: nat, N, Z, positive stay the extracted inductives. *)
-From PV Require Import Lib.Base Lib.Utf8 Syntax.RGrammar Syntax.Code Model.PState Model.Runtime Spec.Ref Spec.RefParse.
+From PV Require Import Lib.Base Lib.Utf8 Syntax.RGrammar Syntax.Code Model.PState Spec.Pos Model.Runtime Spec.Ref Spec.RefParse.
 Require Import ExtrOcamlBasic.
 Extraction Language OCaml.
 Set Extraction KeepSingleton.
